@@ -51,4 +51,12 @@ theorem scipyConstraint_agrees {X α : Type} [NumAlg α] (s : Sense) (f : X → 
   · rw [hge]; simp [scipyConstraint]
   · rw [heq]; simp [scipyConstraint]
 
+/-- `_make_constraint` normalises `lhs ⋈ rhs` to `(lhs - rhs) ⋈ 0` with exactly these operand conversions — the
+    shape `Api.mkConstraint` (C10) models: a Python number becomes `Constant(rhs)`, an Expression is subtracted as
+    it is, anything else goes through `float(rhs)` *before* any arithmetic -/
+theorem makeConstraint_shape :
+    glueMakeConstraint = [("python-number", "rhs = Constant(rhs)"), ("expression", "expr = lhs - rhs"),
+      ("other", "expr = lhs - Constant(float(rhs))"), ("return", "Constraint(expr=expr, sense=sense)")] := by
+  decide
+
 end Optyx.Props.Glue
